@@ -16,7 +16,8 @@ Record consts_facts : Prop := {
   cf_off_data : OFF_DATA = TAG_SIZE + 13;
   cf_hdr : HDR = TAG_SIZE + 13;
   cf_sdp : SDP_SIZE = HDR + MAX_DATA_SIZE;
-  cf_max : 0 <= MAX_DATA_SIZE < 1073741824;
+  cf_max : 0 <= MAX_DATA_SIZE < 536870912;
+  cf_tag_small : TAG_SIZE < 1024;
   cf_bufmin : 0 < BUFFER_MIN < BUFFER_MAX;
   cf_bufmax : BUFFER_MAX < 1073741824;
   cf_srpcbuf : 0 < SRPC_BUFFER;
@@ -75,10 +76,6 @@ Lemma enc32_ok v : bytes_ok (enc32 v).
 Proof. unfold enc32. repeat constructor; apply Z.mod_pos_bound; lia. Qed.
 
 (* ---------- subsequences ---------- *)
-Inductive Subseq {A} : list A -> list A -> Prop :=
-  | ss_nil : forall l, Subseq [] l
-  | ss_keep : forall x a b, Subseq a b -> Subseq (x :: a) (x :: b)
-  | ss_skip : forall x a b, Subseq a b -> Subseq a (x :: b).
 Lemma Subseq_refl {A} (l : list A) : Subseq l l.
 Proof. induction l; constructor; auto. Qed.
 Lemma Subseq_app {A} (a a' b b' : list A) : Subseq a a' -> Subseq b b' -> Subseq (a ++ b) (a' ++ b').
@@ -105,9 +102,6 @@ Proof.
 Qed.
 
 (* ---------- frames: encode / decode ---------- *)
-Definition pkt_ok (p : pkt) : Prop :=
-  0 < p_rr p < 4294967296 /\ 0 <= p_call p < 4294967296 /\ 0 <= p_ver p < 256 /\
-  bytes_ok (p_data p) /\ len (p_data p) <= MAX_DATA_SIZE.
 
 Lemma len_header p : len (header p) = HDR.
 Proof.
@@ -226,18 +220,20 @@ Proof.
     + right. apply Z.ltb_lt in E2. auto.
     + left. apply Z.ltb_ge in E2. auto.
   - inversion H; subst. left. apply ltb_len_false in E. subst chunk.
-    repeat split; try reflexivity. intros X. change (len (@nil Z)) with 0 in X. lia.
+    split; [reflexivity|]. split; [symmetry; apply app_nil_r|]. intros X. change (len (@nil Z)) with 0 in X. lia.
 Qed.
 
 (* the retry never loses anything, whatever the result *)
 Lemma retry_spec eb rs eb1 rs1 o1 : retry eb rs = (eb1, rs1, o1) ->
   wire_of o1 ++ eb1 = eb /\ len eb1 <= len eb /\ ~ In SendBufExceeded o1 /\ ~ In Restart o1.
 Proof.
-  unfold retry. intros H.
+  unfold retry. intros H. pose proof (len_nonneg eb) as H0.
+  assert (N1 : ~ In SendBufExceeded [Wire eb] /\ ~ In Restart [Wire eb]) by (split; intros [X|[]]; discriminate X).
+  assert (N2 : ~ In SendBufExceeded [HardErr] /\ ~ In Restart [HardErr]) by (split; intros [X|[]]; discriminate X).
   destruct (0 <? len eb) eqn:E.
-  - destruct (next rs) as [r rs']. destruct (classify r); inversion H; subst; cbn [wire_of map concat app In];
-      rewrite ?app_nil_r, ?len_nil; pose proof (len_nonneg eb); repeat split; try lia; intuition congruence.
-  - inversion H; subst. cbn. repeat split; try lia; intuition.
+  - destruct (next rs) as [r rs']. destruct (classify r); inversion H; subst eb1 rs1 o1; cbn [wire_of map concat app];
+      rewrite ?app_nil_r; change (len (@nil Z)) with 0; repeat split; try lia; try tauto; try (intros []).
+  - inversion H; subst eb1 rs1 o1. cbn [wire_of map concat app]. repeat split; try lia; intros [].
 Qed.
 
 Lemma send_or_buffer_spec eb chunk rs eb2 rs2 o2 : send_or_buffer eb chunk rs = (eb2, rs2, o2) ->
@@ -289,7 +285,7 @@ Proof.
   apply send_or_buffer_spec in S. destruct S as (S1 & S2 & S3 & S4).
   rewrite wire_of_app, <- app_assoc. repeat split.
   - intros Cn. apply clean_app in Cn. rewrite (S1 (proj2 Cn)), app_assoc, R1. reflexivity.
-  - rewrite <- R1 at 2. rewrite <- app_assoc. apply Subseq_app; [apply Subseq_refl|exact S2].
+  - rewrite <- R1. rewrite <- app_assoc. apply Subseq_app; [apply Subseq_refl|exact S2].
   - intros I. apply in_app_or in I. tauto.
   - intros L1 L2. apply S4; lia.
 Qed.
@@ -301,7 +297,7 @@ Proof.
   unfold data_write. intros H.
   destruct (retry eb rs) as [[e1 r1] oo] eqn:R.
   assert (S : send_or_buffer e1 [] r1 = (e1, r1, [])).
-  { unfold send_or_buffer, append_buffer. rewrite len_nil. cbn [Z.ltb Z.compare]. destruct (0 <? len e1); reflexivity. }
+  { unfold send_or_buffer, append_buffer. change (len (@nil Z)) with 0. cbn [Z.ltb Z.compare]. destruct (0 <? len e1); reflexivity. }
   rewrite S in H. inversion H; subst. rewrite app_nil_r. apply retry_spec in R. exact R.
 Qed.
 
@@ -342,21 +338,19 @@ Lemma opop_spec b n b' c : opop b n = (b', c) -> 0 < n ->
 Proof.
   unfold opop. intros H Hn. pose proof (len_nonneg (odata b)) as H0.
   destruct (len (odata b) <=? 0) eqn:E; cbn [orb] in H.
-  - inversion H; subst. apply Z.leb_le in E. cbn [app]. rewrite len_nil. repeat split; auto; lia.
+  - inversion H; subst b' c. apply Z.leb_le in E. cbn [app]. change (len (@nil Z)) with 0.
+    split; [reflexivity|]. split; [lia|]. split; [lia|]. auto.
   - apply Z.leb_gt in E. destruct (n =? 0) eqn:En; [apply Z.eqb_eq in En; lia|].
     inversion H; subst; clear H. cbn [odata osize].
     set (k := if len (odata b) <? n then len (odata b) else n).
     assert (K : 0 < k <= n /\ k <= len (odata b)).
     { unfold k. destruct (len (odata b) <? n) eqn:E2; [apply Z.ltb_lt in E2|apply Z.ltb_ge in E2]; lia. }
-    repeat split.
-    + apply take_drop.
-    + rewrite len_take by lia. lia.
-    + intros _. rewrite len_take by lia. lia.
-    + intros (B1 & B2). pose proof (cf_bufmin CF). unfold obuf_ok. cbn [osize odata].
-      rewrite len_drop by lia.
-      destruct (Z.max 0 (len (odata b) - k) <? osize b) eqn:E3; [apply Z.ltb_lt in E3|apply Z.ltb_ge in E3].
-      * destruct (Z.max 0 (len (odata b) - k) <? BUFFER_MIN) eqn:E4; [apply Z.ltb_lt in E4|apply Z.ltb_ge in E4]; lia.
-      * lia.
+    split; [apply take_drop|]. split; [rewrite len_take by lia; lia|]. split; [intros _; rewrite len_take by lia; lia|].
+    intros (B1 & B2). pose proof (cf_bufmin CF). unfold obuf_ok. cbn [osize odata].
+    rewrite len_drop by lia.
+    destruct (Z.max 0 (len (odata b) - k) <? osize b) eqn:E3; [apply Z.ltb_lt in E3|apply Z.ltb_ge in E3].
+    + destruct (Z.max 0 (len (odata b) - k) <? BUFFER_MIN) eqn:E4; [apply Z.ltb_lt in E4|apply Z.ltb_ge in E4]; lia.
+    + lia.
 Qed.
 
 Lemma out_append_spec silent b p b' r : out_append silent b p = (b', r) ->
@@ -377,4 +371,632 @@ Proof.
     + rewrite A1. unfold encode. apply Subseq_app; [apply Subseq_refl|].
       rewrite <- (app_nil_r (body p)) at 1. apply Subseq_app; [apply Subseq_refl|constructor].
   - destruct silent; inversion H; subst; auto.
+Qed.
+
+(* ---------- one step ---------- *)
+Lemma rr_nonzero x : (if u32 (x + 1) =? 0 then u32 (u32 (x + 1) + 1) else u32 (x + 1)) <> 0.
+Proof.
+  destruct (u32 (x + 1) =? 0) eqn:E.
+  - apply Z.eqb_eq in E. rewrite E. vm_compute. discriminate.
+  - apply Z.eqb_neq in E. exact E.
+Qed.
+Lemma rr_range x : 0 <= (if u32 (x + 1) =? 0 then u32 (u32 (x + 1) + 1) else u32 (x + 1)) < 4294967296.
+Proof. destruct (u32 (x + 1) =? 0); apply u32_range. Qed.
+
+Lemma pending_push s p :
+  espbuf s ++ odata (ob s) ++ stream (outq s ++ [p]) = pending s ++ encode p.
+Proof. unfold pending. rewrite stream_app, stream_cons. cbn [stream map concat]. rewrite app_nil_r, <- !app_assoc. reflexivity. Qed.
+
+(* what a Call step does *)
+Lemma call_spec s cid pl s' o : call s cid pl = (s', o) ->
+  exists rr, o = [Ret rr] /\ halted s' = halted s /\ ob s' = ob s /\ espbuf s' = espbuf s /\
+    ((rr = 0 /\ outq s' = outq s /\ (allowed cid = false \/ MAX_DATA_SIZE < len pl \/ SRPC_QUEUE <= len (outq s))) \/
+     (rr <> 0 /\ 0 <= rr < 4294967296 /\ rr = next_rr s' /\ allowed cid = true /\ len pl <= MAX_DATA_SIZE /\ len (outq s) < SRPC_QUEUE /\
+      outq s' = outq s ++ [{| p_rr := rr; p_call := cid; p_ver := DEVICE_PROTO_VERSION; p_data := pl |}] /\
+      rr = (if u32 (next_rr s + 1) =? 0 then u32 (u32 (next_rr s + 1) + 1) else u32 (next_rr s + 1)))).
+Proof.
+  unfold call. intros H.
+  destruct (allowed cid) eqn:A; cbn [negb] in H.
+  - destruct (MAX_DATA_SIZE <? len pl) eqn:E1; [apply Z.ltb_lt in E1|apply Z.ltb_ge in E1].
+    + inversion H; subst s' o. exists 0. cbn [halted ob espbuf outq].
+      split; [reflexivity|]. split; [reflexivity|]. split; [reflexivity|]. split; [reflexivity|]. left. auto.
+    + destruct (SRPC_QUEUE <=? len (outq s)) eqn:E2; [apply Z.leb_le in E2|apply Z.leb_gt in E2].
+      * inversion H; subst s' o. exists 0. cbn [halted ob espbuf outq].
+        split; [reflexivity|]. split; [reflexivity|]. split; [reflexivity|]. split; [reflexivity|]. left. auto.
+      * inversion H; subst s' o. eexists. cbn [halted ob espbuf outq next_rr]. split; [reflexivity|].
+        split; [reflexivity|]. split; [reflexivity|]. split; [reflexivity|]. right.
+        pose proof (rr_nonzero (next_rr s)). pose proof (rr_range (next_rr s)). repeat split; auto; lia.
+  - inversion H; subst s' o. exists 0.
+    split; [reflexivity|]. split; [reflexivity|]. split; [reflexivity|]. split; [reflexivity|]. left. auto.
+Qed.
+
+Lemma acc_of_ret0 cid pl : acc_of (Call cid pl) [Ret 0] = [].
+Proof. reflexivity. Qed.
+Lemma acc_of_ret cid pl rr : rr <> 0 ->
+  acc_of (Call cid pl) [Ret rr] = [{| p_rr := rr; p_call := cid; p_ver := DEVICE_PROTO_VERSION; p_data := pl |}].
+Proof. intros H. cbn [acc_of]. apply Z.eqb_neq in H. rewrite H. reflexivity. Qed.
+Lemma acc_of_iter rs o : acc_of (Iter rs) o = [].
+Proof. reflexivity. Qed.
+
+(* every step moves bytes towards the wire; what it removes is a sub-sequence, and nothing is removed
+   unless the step emits HardErr, SendBufExceeded or Restart (when the overflow code is propagated) *)
+Lemma iterate_spec silent s rs s' o : iterate silent s rs = (s', o) ->
+  Subseq (wire_of o ++ pending s') (pending s) /\
+  (silent = false -> clean o -> wire_of o ++ pending s' = pending s) /\
+  next_rr s' = next_rr s.
+Proof.
+  unfold iterate. intros H. pose proof CF as C.
+  destruct (data_write (espbuf s) [] rs) as [[eb1 rs1] o1] eqn:F.
+  apply flush_spec in F. destruct F as (F1 & F2 & F3 & F4).
+  (* state after the queue pop + out_append *)
+  assert (Q : exists q1 ob1 ar,
+     match outq s with [] => ([], ob s, A_TRUE) | p :: q => let '(b, r) := out_append silent (ob s) p in (q, b, r) end = (q1, ob1, ar) /\
+     Subseq (odata ob1 ++ stream q1) (odata (ob s) ++ stream (outq s)) /\
+     (ar = A_TRUE -> odata ob1 ++ stream q1 = odata (ob s) ++ stream (outq s)) /\
+     (ar = A_FALSE -> silent = true)).
+  { destruct (outq s) as [|p q].
+    - exists [], (ob s), A_TRUE. repeat split; auto using Subseq_refl. discriminate.
+    - destruct (out_append silent (ob s) p) as [b r] eqn:A. exists q, b, r. split; [reflexivity|].
+      apply out_append_spec in A. rewrite stream_cons, app_assoc. destruct r.
+      + rewrite A. repeat split; auto using Subseq_refl. discriminate.
+      + destruct A as (-> & ->). repeat split; auto; try discriminate.
+        apply Subseq_app; [|apply Subseq_refl]. rewrite <- (app_nil_r (odata (ob s))) at 1. apply Subseq_app; [apply Subseq_refl|constructor].
+      + repeat split; try discriminate. apply Subseq_app; [exact A|apply Subseq_refl]. }
+  destruct Q as (q1 & ob1 & ar & Q0 & Q1 & Q2 & Q3). rewrite Q0 in H.
+  assert (ERR : forall st1, st1 = {| next_rr := next_rr s; outq := q1; ob := ob1; espbuf := eb1; halted := true |} ->
+     Subseq (wire_of (o1 ++ [OutBufOverflow; Restart]) ++ pending st1) (pending s)).
+  { intros st1 ->. rewrite wire_of_app. cbn [wire_of map concat app]. rewrite app_nil_r. unfold pending. cbn [espbuf ob outq].
+    rewrite app_assoc, F1. apply Subseq_app; [apply Subseq_refl|exact Q1]. }
+  destruct ar.
+  - (* A_TRUE *)
+    destruct (opop ob1 SRPC_BUFFER) as [ob2 chunk] eqn:P.
+    apply opop_spec in P; [|apply (cf_srpcbuf C)]. destruct P as (P1 & P2 & P3 & P4).
+    assert (W : exists eb2 rs2 o2, (if 0 <? len chunk then data_write eb1 chunk rs1 else (eb1, rs1, [])) = (eb2, rs2, o2) /\
+       (clean o2 -> wire_of o2 ++ eb2 = eb1 ++ chunk) /\ Subseq (wire_of o2 ++ eb2) (eb1 ++ chunk)).
+    { destruct (0 <? len chunk) eqn:E.
+      - destruct (data_write eb1 chunk rs1) as [[e2 r2] o2] eqn:D. exists e2, r2, o2. split; [reflexivity|].
+        apply data_write_spec in D. tauto.
+      - apply ltb_len_false in E. subst chunk. exists eb1, rs1, []. cbn [wire_of map concat app]. rewrite app_nil_r.
+        repeat split; auto using Subseq_refl. }
+    destruct W as (eb2 & rs2 & o2 & W0 & W1 & W2). rewrite W0 in H. inversion H; subst s' o; clear H.
+    unfold pending. cbn [espbuf ob outq next_rr]. rewrite wire_of_app.
+    assert (R : forall X, X = wire_of o2 ++ eb2 -> (wire_of o1 ++ wire_of o2) ++ eb2 ++ odata ob2 ++ stream q1 =
+                                                  wire_of o1 ++ X ++ odata ob2 ++ stream q1).
+    { intros X ->. rewrite <- !app_assoc. reflexivity. }
+    rewrite (R _ eq_refl).
+    assert (T : espbuf s ++ odata (ob s) ++ stream (outq s) = wire_of o1 ++ (eb1 ++ chunk) ++ odata ob2 ++ stream q1).
+    { rewrite <- (Q2 eq_refl), <- F1, <- P1, <- !app_assoc. reflexivity. }
+    repeat split.
+    + rewrite T. apply Subseq_app; [apply Subseq_refl|]. apply Subseq_app; [exact W2|apply Subseq_refl].
+    + intros _ Cn. apply clean_app in Cn. rewrite T, (W1 (proj2 Cn)). reflexivity.
+  - (* A_FALSE: only in the old code *)
+    destruct (opop ob1 SRPC_BUFFER) as [ob2 chunk] eqn:P.
+    apply opop_spec in P; [|apply (cf_srpcbuf C)]. destruct P as (P1 & P2 & P3 & P4).
+    assert (W : exists eb2 rs2 o2, (if 0 <? len chunk then data_write eb1 chunk rs1 else (eb1, rs1, [])) = (eb2, rs2, o2) /\
+       Subseq (wire_of o2 ++ eb2) (eb1 ++ chunk)).
+    { destruct (0 <? len chunk) eqn:E.
+      - destruct (data_write eb1 chunk rs1) as [[e2 r2] o2] eqn:D. exists e2, r2, o2. split; [reflexivity|].
+        apply data_write_spec in D. tauto.
+      - apply ltb_len_false in E. subst chunk. exists eb1, rs1, []. cbn [wire_of map concat app]. rewrite app_nil_r.
+        split; auto using Subseq_refl. }
+    destruct W as (eb2 & rs2 & o2 & W0 & W2). rewrite W0 in H. inversion H; subst s' o; clear H.
+    unfold pending. cbn [espbuf ob outq next_rr]. rewrite wire_of_app.
+    repeat split.
+    + replace ((wire_of o1 ++ wire_of o2) ++ eb2 ++ odata ob2 ++ stream q1)
+        with (wire_of o1 ++ (wire_of o2 ++ eb2) ++ odata ob2 ++ stream q1) by (rewrite <- !app_assoc; reflexivity).
+      replace (espbuf s ++ odata (ob s) ++ stream (outq s)) with (wire_of o1 ++ eb1 ++ odata (ob s) ++ stream (outq s))
+        by (rewrite <- F1, <- app_assoc; reflexivity).
+      apply Subseq_app; [apply Subseq_refl|].
+      apply Subseq_trans with ((eb1 ++ chunk) ++ odata ob2 ++ stream q1).
+      * apply Subseq_app; [exact W2|apply Subseq_refl].
+      * rewrite <- app_assoc. apply Subseq_app; [apply Subseq_refl|]. rewrite app_assoc, P1. exact Q1.
+    + intros Sf. rewrite (Q3 eq_refl) in Sf. discriminate Sf.
+  - (* A_ERROR *)
+    inversion H; subst s' o; clear H. split; [apply ERR; reflexivity|]. split; [|reflexivity].
+    intros _ Cn. apply clean_app in Cn. destruct Cn as (_ & Cn). discriminate Cn.
+Qed.
+
+Lemma step_spec silent s e s' o : step silent s e = (s', o) ->
+  Subseq (wire_of o ++ pending s') (pending s ++ stream (acc_of e o)) /\
+  (silent = false -> clean o -> wire_of o ++ pending s' = pending s ++ stream (acc_of e o)).
+Proof.
+  unfold step. intros H.
+  destruct (halted s).
+  - inversion H; subst s' o. destruct e; cbn [acc_of stream map concat wire_of app]; rewrite app_nil_r; auto using Subseq_refl.
+  - destruct e as [cid pl|rs].
+    + apply call_spec in H. destruct H as (rr & -> & _ & Hob & Heb & [(-> & Hq & _)|(Hrr & _ & _ & _ & _ & _ & Hq & _)]).
+      * rewrite acc_of_ret0. cbn [wire_of map concat app stream]. rewrite app_nil_r.
+        unfold pending. rewrite Hob, Heb, Hq. auto using Subseq_refl.
+      * rewrite (acc_of_ret _ _ _ Hrr). cbn [wire_of map concat app]. cbn [stream map concat]. rewrite app_nil_r.
+        assert (E : pending s' = pending s ++ encode {| p_rr := rr; p_call := cid; p_ver := DEVICE_PROTO_VERSION; p_data := pl |}).
+        { rewrite <- pending_push. unfold pending. rewrite Hob, Heb, Hq. reflexivity. }
+        rewrite E. auto using Subseq_refl.
+    + rewrite acc_of_iter. cbn [stream map concat]. rewrite app_nil_r.
+      apply iterate_spec in H. tauto.
+Qed.
+
+(* ---------- whole histories ---------- *)
+Lemma run_trace_cons silent s e r : run_trace silent s (e :: r) =
+  let '(s1, o1) := step silent s e in let '(s2, t) := run_trace silent s1 r in (s2, (e, o1) :: t).
+Proof. reflexivity. Qed.
+Lemma outs_of_cons e o t : outs_of ((e, o) :: t) = o ++ outs_of t.
+Proof. reflexivity. Qed.
+Lemma accepted_cons e o t : accepted ((e, o) :: t) = acc_of e o ++ accepted t.
+Proof. reflexivity. Qed.
+
+Lemma run_conserve : forall evs s s' tr, run_trace false s evs = (s', tr) -> clean (outs_of tr) ->
+  wire_of (outs_of tr) ++ pending s' = pending s ++ stream (accepted tr).
+Proof.
+  induction evs as [|e r IH]; intros s s' tr H Cn.
+  - inversion H; subst. cbn. rewrite app_nil_r. reflexivity.
+  - rewrite run_trace_cons in H. destruct (step false s e) as [s1 o1] eqn:S. destruct (run_trace false s1 r) as [s2 t] eqn:R.
+    inversion H; subst s' tr; clear H. rewrite outs_of_cons in *. rewrite accepted_cons, stream_app, wire_of_app.
+    apply clean_app in Cn. destruct Cn as (C1 & C2).
+    apply step_spec in S. destruct S as (_ & S). specialize (S eq_refl C1).
+    rewrite <- app_assoc, (IH _ _ _ R C2), app_assoc, S, <- app_assoc. reflexivity.
+Qed.
+
+Lemma run_subseq : forall evs silent s s' tr, run_trace silent s evs = (s', tr) ->
+  Subseq (wire_of (outs_of tr) ++ pending s') (pending s ++ stream (accepted tr)).
+Proof.
+  induction evs as [|e r IH]; intros silent s s' tr H.
+  - inversion H; subst. cbn. rewrite app_nil_r. apply Subseq_refl.
+  - rewrite run_trace_cons in H. destruct (step silent s e) as [s1 o1] eqn:S. destruct (run_trace silent s1 r) as [s2 t] eqn:R.
+    inversion H; subst s' tr; clear H. rewrite outs_of_cons. rewrite accepted_cons, stream_app, wire_of_app.
+    apply step_spec in S. destruct S as (S & _). apply IH in R.
+    rewrite <- app_assoc.
+    apply Subseq_trans with (wire_of o1 ++ pending s1 ++ stream (accepted t)).
+    + apply Subseq_app; [apply Subseq_refl|exact R].
+    + rewrite !app_assoc. apply Subseq_app; [exact S|apply Subseq_refl].
+Qed.
+
+Lemma pending_init : pending init = [].
+Proof. reflexivity. Qed.
+
+Theorem C02_stream_invariant_thm : forall evs s tr,
+  run_trace CURRENT_SILENT init evs = (s, tr) -> clean (outs_of tr) ->
+  wire_of (outs_of tr) ++ espbuf s ++ odata (ob s) ++ stream (outq s) = stream (accepted tr).
+Proof. intros evs s tr H Cn. apply (run_conserve _ _ _ _ H Cn). Qed.
+
+Theorem C02_after_hard_error_thm : forall silent evs s tr,
+  run_trace silent init evs = (s, tr) ->
+  Subseq (wire_of (outs_of tr) ++ espbuf s ++ odata (ob s) ++ stream (outq s)) (stream (accepted tr)).
+Proof. intros silent evs s tr H. apply (run_subseq _ _ _ _ _ H). Qed.
+
+Theorem C02_overflow_reported_thm : forall s e s' o,
+  step CURRENT_SILENT s e = (s', o) ->
+  wire_of o ++ pending s' <> pending s ++ stream (acc_of e o) ->
+  In HardErr o \/ In SendBufExceeded o \/ In Restart o.
+Proof.
+  intros s e s' o H N. apply not_clean. intros Cn. apply N. apply step_spec in H. apply (proj2 H); [reflexivity|exact Cn].
+Qed.
+
+(* ---------- state invariant: every buffer stays within its bound ---------- *)
+
+Record wf (s : st) : Prop := {
+  wf_rr : 0 <= next_rr s < 4294967296;
+  wf_q : Forall (fun p => len (p_data p) <= MAX_DATA_SIZE) (outq s);
+  wf_qlen : len (outq s) <= SRPC_QUEUE;
+  wf_ob : obuf_ok (ob s);
+  wf_eb : len (espbuf s) <= SEND_BUFFER
+}.
+Lemma wf_init : wf init.
+Proof.
+  pose proof CF as C. pose proof (cf_bufmin C). pose proof (cf_queue C). pose proof (cf_sendbuf C).
+  split; cbn [init next_rr outq ob espbuf]; try (change (len (@nil pkt)) with 0); try (change (len (@nil Z)) with 0); try lia.
+  - constructor.
+  - unfold obuf_ok. cbn [osize odata]. change (len (@nil Z)) with 0. lia.
+Qed.
+
+Lemma body_len_small p : len (p_data p) <= MAX_DATA_SIZE -> len (body p) < 1073741824 /\ len (body p) <= SDP_SIZE.
+Proof.
+  intros H. pose proof CF as C. pose proof (cf_max C). pose proof (cf_hdr C). pose proof (cf_sdp C).
+  pose proof (cf_tag_pos C). pose proof (cf_bufmax C). pose proof (cf_tag_len C). pose proof (len_nonneg (p_data p)).
+  rewrite len_body.
+  pose proof (cf_tag_small C). lia.
+Qed.
+
+(* sproto_out_buffer_append on an in-bounds buffer: it fails exactly when the frame does not fit *)
+Lemma out_append_wf b p b' r : obuf_ok b -> len (p_data p) <= MAX_DATA_SIZE -> out_append false b p = (b', r) ->
+  obuf_ok b' /\ (r = A_TRUE /\ len (odata b) + len (encode p) < BUFFER_MAX \/
+                 r = A_ERROR /\ BUFFER_MAX <= len (odata b) + len (encode p)).
+Proof.
+  intros Hb Hp. pose proof CF as C. pose proof (body_len_small p Hp) as (L1 & L2).
+  pose proof (cf_tag_pos C). pose proof (cf_tag_len C) as TL. pose proof (len_nonneg (p_data p)).
+  pose proof (cf_sdp C). pose proof (cf_max C). pose proof (cf_hdr C).
+  pose proof (cf_tag_small C) as TS.
+  unfold out_append.
+  rewrite u32_small by lia.
+  destruct (SDP_SIZE <? HDR + len (p_data p)) eqn:E0; [apply Z.ltb_lt in E0; lia|].
+  pose proof (oappend_spec b (body p) Hb L1) as A1.
+  assert (LE : len (encode p) = len (body p) + TAG_SIZE) by (unfold encode; rewrite len_app, TL; reflexivity).
+  destruct (oappend b (body p)) as [b1|].
+  - destruct A1 as (B1 & D1 & F1).
+    pose proof (oappend_spec b1 TAG B1 ltac:(lia)) as A2.
+    destruct (oappend b1 TAG) as [b2|]; intros HH; inversion HH; subst b' r.
+    + destruct A2 as (B2 & D2 & F2). split; [exact B2|]. left. split; [reflexivity|]. rewrite D1, len_app in F2. lia.
+    + split; [exact B1|]. right. split; [reflexivity|]. rewrite D1, len_app in A2. lia.
+  - intros HH; inversion HH; subst b' r. split; [exact Hb|]. right. split; [reflexivity|]. lia.
+Qed.
+
+(* structure of one iteration *)
+Definition qpart (silent : bool) (s : st) : list pkt * obuf * ares :=
+  match outq s with
+  | [] => ([], ob s, A_TRUE)
+  | p :: q => let '(b, r) := out_append silent (ob s) p in (q, b, r)
+  end.
+Lemma iterate_cases silent s rs s' o : iterate silent s rs = (s', o) ->
+  exists eb1 rs1 o1 q1 ob1 ar,
+    data_write (espbuf s) [] rs = (eb1, rs1, o1) /\ qpart silent s = (q1, ob1, ar) /\
+    ((ar = A_ERROR /\ s' = {| next_rr := next_rr s; outq := q1; ob := ob1; espbuf := eb1; halted := true |} /\
+      o = o1 ++ [OutBufOverflow; Restart]) \/
+     (ar <> A_ERROR /\ exists ob2 chunk eb2 rs2 o2,
+        opop ob1 SRPC_BUFFER = (ob2, chunk) /\
+        (if 0 <? len chunk then data_write eb1 chunk rs1 else (eb1, rs1, [])) = (eb2, rs2, o2) /\
+        s' = {| next_rr := next_rr s; outq := q1; ob := ob2; espbuf := eb2; halted := false |} /\ o = o1 ++ o2)).
+Proof.
+  unfold iterate. fold (qpart silent s). intros H.
+  destruct (data_write (espbuf s) [] rs) as [[eb1 rs1] o1].
+  destruct (qpart silent s) as [[q1 ob1] ar].
+  exists eb1, rs1, o1, q1, ob1, ar. split; [reflexivity|]. split; [reflexivity|].
+  destruct ar.
+  - right. split; [discriminate|].
+    destruct (opop ob1 SRPC_BUFFER) as [ob2 chunk].
+    destruct (if 0 <? len chunk then data_write eb1 chunk rs1 else (eb1, rs1, [])) as [[eb2 rs2] o2] eqn:D.
+    exists ob2, chunk, eb2, rs2, o2. inversion H. auto.
+  - right. split; [discriminate|].
+    destruct (opop ob1 SRPC_BUFFER) as [ob2 chunk].
+    destruct (if 0 <? len chunk then data_write eb1 chunk rs1 else (eb1, rs1, [])) as [[eb2 rs2] o2] eqn:D.
+    exists ob2, chunk, eb2, rs2, o2. inversion H. auto.
+  - left. inversion H. auto.
+Qed.
+
+(* the queue part on a well-formed state: the frame of the head packet is appended, or it does not fit *)
+Lemma qpart_wf s q1 ob1 ar : wf s -> qpart false s = (q1, ob1, ar) ->
+  obuf_ok ob1 /\ Forall (fun p => len (p_data p) <= MAX_DATA_SIZE) q1 /\ len q1 <= len (outq s) /\
+  ((outq s = [] /\ q1 = [] /\ ob1 = ob s /\ ar = A_TRUE) \/
+   (exists p, outq s = p :: q1 /\ len (p_data p) <= MAX_DATA_SIZE /\
+      ((ar = A_TRUE /\ odata ob1 = odata (ob s) ++ encode p /\ len (odata (ob s)) + len (encode p) < BUFFER_MAX) \/
+       (ar = A_ERROR /\ BUFFER_MAX <= len (odata (ob s)) + len (encode p))))).
+Proof.
+  intros W. unfold qpart. destruct W as [_ Wq Wl Wb _].
+  destruct (outq s) as [|p q] eqn:Q.
+  - intros H; inversion H; subst. split; [exact Wb|]. split; [constructor|]. split; [lia|]. left. auto.
+  - destruct (out_append false (ob s) p) as [b r] eqn:A. intros H; inversion H; subst q1 ob1 ar.
+    inversion Wq as [|? ? Hp Hq]; subst.
+    pose proof (out_append_wf _ _ _ _ Wb Hp A) as (B & R).
+    split; [exact B|]. split; [exact Hq|]. split; [rewrite len_cons; lia|]. right. exists p. split; [reflexivity|]. split; [exact Hp|].
+    destruct R as [(-> & L)|(-> & L)].
+    + left. apply out_append_spec in A. auto.
+    + right. auto.
+Qed.
+
+Lemma call_next_rr s cid pl s' o : call s cid pl = (s', o) ->
+  next_rr s' = next_rr s \/
+  next_rr s' = (if u32 (next_rr s + 1) =? 0 then u32 (u32 (next_rr s + 1) + 1) else u32 (next_rr s + 1)).
+Proof.
+  unfold call. intros H. destruct (negb (allowed cid)); [inversion H; auto|].
+  destruct (MAX_DATA_SIZE <? len pl); [inversion H; auto|].
+  destruct (SRPC_QUEUE <=? len (outq s)); inversion H; auto.
+Qed.
+
+Lemma step_wf s e s' o : wf s -> step CURRENT_SILENT s e = (s', o) -> wf s'.
+Proof.
+  intros W. unfold step, CURRENT_SILENT. pose proof CF as C.
+  destruct (halted s); [intros H; inversion H; subst; exact W|].
+  destruct e as [cid pl|rs]; intros H.
+  - pose proof (call_next_rr _ _ _ _ _ H) as N.
+    assert (R : 0 <= next_rr s' < 4294967296).
+    { destruct N as [->| ->]; [apply (wf_rr _ W)|apply rr_range]. }
+    apply call_spec in H. destruct H as (rr & _ & _ & Hob & Heb & [(_ & Hq & _)|(Hn & Hr & Hnx & _ & Hl & Hql & Hq & _)]).
+    + destruct W. split; rewrite ?Hob, ?Heb, ?Hq; auto.
+    + destruct W. split; rewrite ?Hob, ?Heb, ?Hq; auto.
+      * apply Forall_app. split; [assumption|]. constructor; [exact Hl|constructor].
+      * rewrite len_app, len_cons. change (len (@nil pkt)) with 0. lia.
+  - apply iterate_cases in H.
+    destruct H as (eb1 & rs1 & o1 & q1 & ob1 & ar & F & Q & R).
+    apply flush_spec in F. destruct F as (_ & F2 & _ & _).
+    pose proof (qpart_wf _ _ _ _ W Q) as (B & Fq & Lq & _).
+    destruct R as [(_ & -> & _)|(_ & ob2 & chunk & eb2 & rs2 & o2 & P & D & -> & _)].
+    + destruct W. split; cbn [next_rr outq ob espbuf]; auto; lia.
+    + apply opop_spec in P; [|apply (cf_srpcbuf C)]. destruct P as (_ & P2 & _ & P4).
+      assert (E : len eb2 <= SEND_BUFFER).
+      { destruct (0 <? len chunk).
+        - apply data_write_spec in D. destruct D as (_ & _ & _ & D). apply D; [destruct W; lia|pose proof (cf_chunk_fits C); lia].
+        - inversion D; subst. destruct W; lia. }
+      destruct W. split; cbn [next_rr outq ob espbuf]; auto; lia.
+Qed.
+
+Lemma run_wf : forall evs s s' tr, wf s -> run_trace CURRENT_SILENT s evs = (s', tr) -> wf s'.
+Proof.
+  induction evs as [|e r IH]; intros s s' tr W H.
+  - inversion H; subst; exact W.
+  - rewrite run_trace_cons in H. destruct (step CURRENT_SILENT s e) as [s1 o1] eqn:S.
+    destruct (run_trace CURRENT_SILENT s1 r) as [s2 t] eqn:R. inversion H; subst s' tr.
+    eapply IH; [|exact R]. eapply step_wf; eauto.
+Qed.
+
+Theorem C02_bounds_thm : forall evs s tr, run_trace CURRENT_SILENT init evs = (s, tr) ->
+  len (outq s) <= SRPC_QUEUE /\ len (odata (ob s)) <= osize (ob s) /\ osize (ob s) < BUFFER_MAX /\
+  len (espbuf s) <= SEND_BUFFER /\ Forall (fun p => len (p_data p) <= MAX_DATA_SIZE) (outq s).
+Proof.
+  intros evs s tr H. pose proof (run_wf _ _ _ _ wf_init H) as [_ Wq Wl (B1 & B2) We]. repeat split; auto; lia.
+Qed.
+
+(* the out-buffer overflow is reported exactly when the frame of the next queued call does not fit *)
+Theorem C02_overflow_exact_thm : forall evs s tr rs s' o, run_trace CURRENT_SILENT init evs = (s, tr) -> halted s = false ->
+  step CURRENT_SILENT s (Iter rs) = (s', o) ->
+  (In Restart o <-> exists p q, outq s = p :: q /\ BUFFER_MAX <= len (odata (ob s)) + len (encode p)).
+Proof.
+  intros evs s tr rs s' o H Hh S. pose proof (run_wf _ _ _ _ wf_init H) as W. pose proof CF as C.
+  unfold step in S. rewrite Hh in S. unfold CURRENT_SILENT in S. apply iterate_cases in S.
+  destruct S as (eb1 & rs1 & o1 & q1 & ob1 & ar & F & Q & R).
+  apply flush_spec in F. destruct F as (_ & _ & _ & F4).
+  pose proof (qpart_wf _ _ _ _ W Q) as (_ & _ & _ & QQ).
+  destruct R as [(-> & _ & ->)|(Hne & ob2 & chunk & eb2 & rs2 & o2 & P & D & _ & ->)].
+  - split.
+    + intros _. destruct QQ as [(_ & _ & _ & X)|(p & Hq & _ & [(X & _)|(_ & L)])]; try discriminate X.
+      exists p, q1. auto.
+    + intros _. apply in_or_app. right. right. left. reflexivity.
+  - assert (NR : ~ In Restart o2).
+    { destruct (0 <? len chunk); [apply data_write_spec in D; tauto|inversion D; subst; intros []]. }
+    split.
+    + intros I. apply in_app_or in I. tauto.
+    + intros (p & q & Hq & L). exfalso.
+      destruct QQ as [(X & _)|(p' & Hq' & _ & [(_ & _ & L')|(X & _)])].
+      * rewrite X in Hq; discriminate Hq.
+      * rewrite Hq in Hq'. inversion Hq'; subst. lia.
+      * apply Hne; exact X.
+Qed.
+
+(* ---------- accepted calls are well-formed packets; the wire decodes to them ---------- *)
+Lemma step_acc_ok silent s e s' o : ev_ok e -> step silent s e = (s', o) -> Forall pkt_ok (acc_of e o).
+Proof.
+  intros He. unfold step. destruct (halted s).
+  - intros H; inversion H; subst. destruct e; constructor.
+  - destruct e as [cid pl|rs]; intros H; [|constructor].
+    apply call_spec in H. destruct H as (rr & -> & _ & _ & _ & [(-> & _)|(Hn & Hr & _ & _ & Hl & _)]).
+    + rewrite acc_of_ret0. constructor.
+    + rewrite (acc_of_ret _ _ _ Hn). constructor; [|constructor].
+      destruct He as (Hc & Hb). unfold pkt_ok. cbn [p_rr p_call p_ver p_data]. pose proof (cf_ver CF). repeat split; auto; lia.
+Qed.
+Lemma run_acc_ok : forall evs silent s s' tr, Forall ev_ok evs -> run_trace silent s evs = (s', tr) -> Forall pkt_ok (accepted tr).
+Proof.
+  induction evs as [|e r IH]; intros silent s s' tr He H.
+  - inversion H; subst. constructor.
+  - inversion He as [|? ? He1 He2]; subst.
+    rewrite run_trace_cons in H. destruct (step silent s e) as [s1 o1] eqn:S. destruct (run_trace silent s1 r) as [s2 t] eqn:R.
+    inversion H; subst s' tr. rewrite accepted_cons. apply Forall_app. split; [eapply step_acc_ok; eauto|eapply IH; eauto].
+Qed.
+
+Theorem C02_wire_decodes_thm : forall evs s tr, Forall ev_ok evs ->
+  run_trace CURRENT_SILENT init evs = (s, tr) -> clean (outs_of tr) ->
+  espbuf s = [] -> odata (ob s) = [] -> outq s = [] ->
+  decode_all (wire_of (outs_of tr)) = Some (accepted tr).
+Proof.
+  intros evs s tr He H Cn E1 E2 E3.
+  pose proof (C02_stream_invariant_thm _ _ _ H Cn) as I. rewrite E1, E2, E3 in I. cbn [stream map concat app] in I.
+  rewrite app_nil_r in I. rewrite I. apply roundtrip_stream. eapply run_acc_ok; eauto.
+Qed.
+
+(* ---------- request ids ---------- *)
+Lemma step_rr silent s e s' o : step silent s e = (s', o) -> 0 <= next_rr s -> next_rr s + 1 < 4294967296 ->
+  next_rr s <= next_rr s' <= next_rr s + 1 /\ Forall (fun p => p_rr p = next_rr s' /\ next_rr s < p_rr p) (acc_of e o).
+Proof.
+  intros H H0 H1. unfold step in H. destruct (halted s).
+  - inversion H; subst. split; [lia|]. destruct e; constructor.
+  - destruct e as [cid pl|rs].
+    + pose proof (call_next_rr _ _ _ _ _ H) as N.
+      assert (E : (if u32 (next_rr s + 1) =? 0 then u32 (u32 (next_rr s + 1) + 1) else u32 (next_rr s + 1)) = next_rr s + 1).
+      { rewrite (u32_small (next_rr s + 1)) by lia. destruct (next_rr s + 1 =? 0) eqn:Z0; [apply Z.eqb_eq in Z0; lia|reflexivity]. }
+      rewrite E in N.
+      apply call_spec in H. destruct H as (rr & -> & _ & _ & _ & [(-> & _)|(Hn & Hr & Hnx & _ & _ & _ & _ & Hf)]).
+      * rewrite acc_of_ret0. split; [lia|constructor].
+      * rewrite E in Hf. rewrite (acc_of_ret _ _ _ Hn). split; [lia|]. constructor; [|constructor]. cbn [p_rr]. lia.
+    + apply iterate_spec in H. destruct H as (_ & _ & ->). split; [lia|constructor].
+Qed.
+
+Lemma acc_of_length e o : (length (acc_of e o) <= 1)%nat.
+Proof.
+  destruct e as [cid pl|rs]; [|cbn; lia]. destruct o as [|[rr| | | | |] [|? ?]]; cbn; try lia. destruct (rr =? 0); cbn; lia.
+Qed.
+Lemma run_rr : forall evs silent s s' tr, run_trace silent s evs = (s', tr) -> 0 <= next_rr s -> next_rr s + len evs < 4294967296 ->
+  next_rr s <= next_rr s' <= next_rr s + len evs /\
+  Forall (fun p => next_rr s < p_rr p <= next_rr s') (accepted tr) /\
+  StronglySorted Z.lt (map p_rr (accepted tr)).
+Proof.
+  induction evs as [|e r IH]; intros silent s s' tr H H0 H1.
+  - inversion H; subst. change (len (@nil ev)) with 0. repeat split; try lia; constructor.
+  - rewrite len_cons in H1. pose proof (len_nonneg r) as Lr.
+    rewrite run_trace_cons in H. destruct (step silent s e) as [s1 o1] eqn:S. destruct (run_trace silent s1 r) as [s2 t] eqn:R.
+    inversion H; subst s' tr; clear H.
+    apply step_rr in S; [|lia|lia]. destruct S as (S1 & S2).
+    apply IH in R; [|lia|lia]. destruct R as (R1 & R2 & R3).
+    rewrite len_cons, accepted_cons. split; [lia|]. split.
+    + apply Forall_app. split.
+      * eapply Forall_impl; [|exact S2]. cbn beta. intros p (A & B). lia.
+      * eapply Forall_impl; [|exact R2]. cbn beta. intros p A. lia.
+    + pose proof (acc_of_length e o1) as AL. destruct (acc_of e o1) as [|p [|p' l]]; cbn [app map].
+      * exact R3.
+      * inversion S2 as [|? ? (A & B) _]; subst. constructor; [exact R3|].
+        apply Forall_forall. intros x Hx. apply in_map_iff in Hx. destruct Hx as (q & <- & Hq).
+        rewrite Forall_forall in R2. specialize (R2 _ Hq). lia.
+      * exfalso. cbn [length] in AL. lia.
+Qed.
+
+Theorem C02_rr_ids_thm : forall silent evs s tr, run_trace silent init evs = (s, tr) -> len evs < 4294967296 ->
+  StronglySorted Z.lt (map p_rr (accepted tr)) /\ Forall (fun p => 0 < p_rr p < 4294967296) (accepted tr).
+Proof.
+  intros silent evs s tr H L. apply run_rr in H; cbn [init next_rr]; [|lia|lia].
+  destruct H as (H1 & H2 & H3). split; [exact H3|]. eapply Forall_impl; [|exact H2]. cbn beta. cbn [init next_rr] in *. intros p A. lia.
+Qed.
+
+(* without any bound on the number of calls: an accepted id is never 0 *)
+Theorem C02_rr_nonzero_thm : forall silent evs s tr, run_trace silent init evs = (s, tr) ->
+  Forall (fun p => p_rr p <> 0) (accepted tr).
+Proof.
+  intros silent evs. generalize init. induction evs as [|e r IH]; intros s0 s tr H.
+  - inversion H; subst. constructor.
+  - rewrite run_trace_cons in H. destruct (step silent s0 e) as [s1 o1] eqn:S. destruct (run_trace silent s1 r) as [s2 t] eqn:R.
+    inversion H; subst s tr. rewrite accepted_cons. apply Forall_app. split; [|eapply IH; eauto].
+    clear. destruct e as [cid pl|rs]; [|constructor]. destruct o1 as [|[rr| | | | |] [|? ?]]; try constructor.
+    cbn [acc_of]. destruct (rr =? 0) eqn:E; constructor; [|constructor]. cbn [p_rr]. apply Z.eqb_neq in E. exact E.
+Qed.
+
+(* ---------- rejected at issue time, or queued ---------- *)
+Theorem C02_rejected_iff_thm : forall s cid pl s' o, halted s = false -> step CURRENT_SILENT s (Call cid pl) = (s', o) ->
+  exists rr, o = [Ret rr] /\
+    (rr = 0 <-> (allowed cid = false \/ MAX_DATA_SIZE < len pl \/ SRPC_QUEUE <= len (outq s))) /\
+    (rr <> 0 -> outq s' = outq s ++ [{| p_rr := rr; p_call := cid; p_ver := DEVICE_PROTO_VERSION; p_data := pl |}]).
+Proof.
+  intros s cid pl s' o Hh H. unfold step in H. rewrite Hh in H.
+  apply call_spec in H. destruct H as (rr & -> & _ & _ & _ & [(-> & _ & D)|(Hn & _ & _ & A & L & Q & Hq & _)]).
+  - exists 0. split; [reflexivity|]. split; [tauto|]. intros X; contradiction X; reflexivity.
+  - exists rr. split; [reflexivity|]. split; [|intros _; exact Hq].
+    split; [intros X; contradiction|]. intros [X|[X|X]]; [rewrite A in X; discriminate X|lia|lia].
+Qed.
+
+(* ---------- every accepted call reaches the wire (or the overflow is reported) ---------- *)
+Lemma mu_nonneg s : 0 <= mu s.
+Proof.
+  unfold mu. pose proof (len_nonneg (espbuf s)). pose proof (len_nonneg (odata (ob s))). pose proof (len_nonneg (outq s)).
+  pose proof CF as C. pose proof (cf_tag_pos C). pose proof (cf_sdp C). pose proof (cf_hdr C). pose proof (cf_max C). nia.
+Qed.
+Lemma mu_zero_pending s : mu s <= 0 -> pending s = [].
+Proof.
+  intros H. unfold mu in H. pose proof (len_nonneg (espbuf s)). pose proof (len_nonneg (odata (ob s))). pose proof (len_nonneg (outq s)).
+  pose proof CF as C. pose proof (cf_tag_pos C). pose proof (cf_sdp C). pose proof (cf_hdr C). pose proof (cf_max C).
+  assert (len (espbuf s) <= 0) by nia. assert (len (odata (ob s)) <= 0) by nia. assert (len (outq s) <= 0) by nia.
+  unfold pending. rewrite (len_zero_nil (espbuf s)), (len_zero_nil (odata (ob s))), (len_zero_nil (outq s)) by assumption. reflexivity.
+Qed.
+
+(* an all-OK write empties the retry buffer and puts the chunk on the wire *)
+Lemma retry_ok eb rs : exists o, retry eb (0 :: rs) = ([], (if 0 <? len eb then rs else 0 :: rs), o) /\ clean o.
+Proof.
+  unfold retry. destruct (0 <? len eb) eqn:E.
+  - cbn [next]. rewrite (cf_ok CF). eexists. split; reflexivity.
+  - apply ltb_len_false in E. subst eb. eexists. split; reflexivity.
+Qed.
+Lemma data_write_ok eb chunk rs : exists rs' o, data_write eb chunk (0 :: 0 :: rs) = ([], rs', o) /\ clean o /\
+  (exists rs'', rs' = 0 :: rs'' \/ (0 < len eb /\ 0 < len chunk)).
+Proof.
+  unfold data_write. destruct (retry_ok eb (0 :: rs)) as (o1 & R & C1). rewrite R.
+  unfold send_or_buffer. change (len (@nil Z)) with 0. cbn [Z.ltb Z.compare].
+  destruct (0 <? len chunk) eqn:Ec.
+  - destruct (0 <? len eb) eqn:Ee.
+    + cbn [next]. rewrite (cf_ok CF). eexists _, _. split; [reflexivity|]. split.
+      * apply clean_app. split; [exact C1|reflexivity].
+      * exists []. right. split; apply Z.ltb_lt; assumption.
+    + cbn [next]. rewrite (cf_ok CF). eexists _, _. split; [reflexivity|]. split.
+      * apply clean_app. split; [exact C1|reflexivity].
+      * exists rs. left. reflexivity.
+  - eexists _, _. split; [reflexivity|]. split.
+    + rewrite app_nil_r. exact C1.
+    + destruct (0 <? len eb); [exists rs|exists (0 :: rs)]; left; reflexivity.
+Qed.
+
+Lemma iter_ok_step s s' o : wf s -> halted s = false -> step CURRENT_SILENT s iter_ok = (s', o) ->
+  In Restart o \/ (clean o /\ wf s' /\ halted s' = false /\ mu s' <= Z.max 0 (mu s - 1)).
+Proof.
+  intros W Hh H. pose proof (step_wf _ _ _ _ W H) as W'. pose proof CF as C.
+  unfold step in H. rewrite Hh in H. unfold iter_ok, CURRENT_SILENT in H.
+  apply iterate_cases in H. destruct H as (eb1 & rs1 & o1 & q1 & ob1 & ar & F & Q & R).
+  destruct (data_write_ok (espbuf s) [] [0]) as (rsx & ox & F' & Cx & _). rewrite F' in F. inversion F; subst eb1 rs1 o1; clear F.
+  pose proof (qpart_wf _ _ _ _ W Q) as (_ & _ & _ & QQ).
+  destruct R as [(_ & _ & ->)|(Hne & ob2 & chunk & eb2 & rs2 & o2 & P & D & -> & ->)].
+  - left. apply in_or_app. right. right. left. reflexivity.
+  - right. apply opop_spec in P; [|apply (cf_srpcbuf C)]. destruct P as (P1 & P2 & P3 & _).
+    (* flush: the unused results still start with 0 *)
+    assert (RS : exists t, rsx = 0 :: t).
+    { unfold data_write in F'. destruct (retry_ok (espbuf s) [0; 0]) as (oo & R & _). rewrite R in F'.
+      unfold send_or_buffer in F'. change (len (@nil Z)) with 0 in F'. cbn [Z.ltb Z.compare] in F'. inversion F'.
+      destruct (0 <? len (espbuf s)); eexists; reflexivity. }
+    destruct RS as (t & ->).
+    assert (DW : eb2 = [] /\ clean o2).
+    { destruct (0 <? len chunk) eqn:Ec.
+      - unfold data_write in D. destruct (retry_ok [] t) as (oo & R & Co). rewrite R in D.
+        change (len (@nil Z)) with 0 in D. cbn [Z.ltb Z.compare] in D.
+        unfold send_or_buffer in D. change (len (@nil Z)) with 0 in D. cbn [Z.ltb Z.compare] in D. rewrite Ec in D.
+        cbn [next] in D. rewrite (cf_ok C) in D. inversion D; subst. split; [reflexivity|]. apply clean_app. split; [exact Co|reflexivity].
+      - inversion D; subst. split; reflexivity. }
+    destruct DW as (-> & Co2).
+    split; [apply clean_app; split; assumption|]. split; [exact W'|]. split; [reflexivity|].
+    unfold mu. cbn [espbuf ob outq]. change (len (@nil Z)) with 0.
+    pose proof (len_nonneg (espbuf s)). pose proof (len_nonneg chunk). pose proof (len_nonneg (odata ob2)). pose proof (len_nonneg q1).
+    pose proof (cf_tag_pos C). pose proof (cf_sdp C). pose proof (cf_hdr C). pose proof (cf_max C).
+    assert (L1 : len (odata ob1) = len chunk + len (odata ob2)) by (rewrite <- P1, len_app; reflexivity).
+    destruct QQ as [(Hq & -> & -> & _)|(p & Hq & Hp & [(_ & Hd & _)|(X & _)])].
+    + rewrite Hq. change (len (@nil pkt)) with 0.
+      destruct (0 <? len (odata (ob s))) eqn:E; [apply Z.ltb_lt in E; specialize (P3 E); lia|apply Z.ltb_ge in E; lia].
+    + rewrite Hq, len_cons. rewrite Hd, len_app, len_encode in L1. pose proof (len_nonneg (odata (ob s))). pose proof (len_nonneg (p_data p)).
+      assert (0 < len chunk). { apply P3. rewrite Hd, len_app, len_encode. lia. }
+      nia.
+    + exfalso; apply Hne; exact X.
+Qed.
+
+Lemma drain : forall n s s' tr, wf s -> halted s = false -> mu s <= Z.of_nat n ->
+  run_trace CURRENT_SILENT s (repeat iter_ok n) = (s', tr) ->
+  In Restart (outs_of tr) \/ (clean (outs_of tr) /\ pending s' = []).
+Proof.
+  induction n as [|n IH]; intros s s' tr W Hh M H.
+  - cbn [repeat run_trace] in H. inversion H; subst. right. split; [reflexivity|]. apply mu_zero_pending. lia.
+  - cbn [repeat] in H. rewrite run_trace_cons in H.
+    destruct (step CURRENT_SILENT s iter_ok) as [s1 o1] eqn:S. destruct (run_trace CURRENT_SILENT s1 (repeat iter_ok n)) as [s2 t] eqn:R.
+    inversion H; subst s' tr; clear H. rewrite outs_of_cons.
+    destruct (iter_ok_step _ _ _ W Hh S) as [I|(C1 & W1 & H1 & M1)].
+    + left. apply in_or_app. left. exact I.
+    + destruct (IH _ _ _ W1 H1 ltac:(lia) R) as [I|(C2 & P)].
+      * left. apply in_or_app. right. exact I.
+      * right. split; [apply clean_app; split; assumption|exact P].
+Qed.
+
+Lemma accepted_iter_ok : forall n silent s s' tr, run_trace silent s (repeat iter_ok n) = (s', tr) -> accepted tr = [].
+Proof.
+  induction n as [|n IH]; intros silent s s' tr H.
+  - inversion H; subst. reflexivity.
+  - cbn [repeat] in H. rewrite run_trace_cons in H.
+    destruct (step silent s iter_ok) as [s1 o1]. destruct (run_trace silent s1 (repeat iter_ok n)) as [s2 t] eqn:R.
+    inversion H; subst. rewrite accepted_cons. unfold iter_ok. rewrite acc_of_iter. cbn [app]. eapply IH; eauto.
+Qed.
+
+(* after any history that did not restart the device, mu(state) all-OK iterations put every accepted-but-unsent
+   byte on the wire, in order, unless an out-buffer overflow is reported by a restart *)
+Theorem C02_accepted_is_sent_thm : forall evs s tr s' tr',
+  run_trace CURRENT_SILENT init evs = (s, tr) -> halted s = false ->
+  run_trace CURRENT_SILENT s (repeat iter_ok (Z.to_nat (mu s))) = (s', tr') ->
+  In Restart (outs_of tr') \/
+  (wire_of (outs_of tr') = espbuf s ++ odata (ob s) ++ stream (outq s) /\ espbuf s' = [] /\ odata (ob s') = [] /\ outq s' = []).
+Proof.
+  intros evs s tr s' tr' H Hh H'.
+  pose proof (run_wf _ _ _ _ wf_init H) as W.
+  assert (M : mu s <= Z.of_nat (Z.to_nat (mu s))) by (rewrite Z2Nat.id; [lia|apply mu_nonneg]).
+  destruct (drain _ _ _ _ W Hh M H') as [I|(Cn & P)]; [left; exact I|right].
+  pose proof (run_conserve _ _ _ _ H' Cn) as E. rewrite P, (accepted_iter_ok _ _ _ _ _ H') in E.
+  cbn [stream map concat] in E. rewrite !app_nil_r in E. split; [exact E|].
+  unfold pending in P. apply app_eq_nil in P. destruct P as (P1 & P). apply app_eq_nil in P. destruct P as (P2 & P3).
+  repeat split; auto.
+  destruct (outq s') as [|p q]; [reflexivity|]. rewrite stream_cons in P3. apply app_eq_nil in P3. destruct P3 as (P3 & _).
+  pose proof (len_encode p) as L. rewrite P3 in L. change (len (@nil Z)) with 0 in L.
+  pose proof (len_nonneg (p_data p)). pose proof (cf_hdr CF). pose proof (cf_tag_pos CF). lia.
+Qed.
+
+(* ---------- the code before the fix: a whole frame disappears without any report ---------- *)
+Definition witness_payload (b : Z) : list Z := repeat b (Z.to_nat MAX_DATA_SIZE).
+Definition witness_evs : list ev :=
+  [Call 100 (witness_payload 1); Call 100 (witness_payload 2)] ++ repeat iter_ok 16.
+Definition witness_p1 : pkt := {| p_rr := 1; p_call := 100; p_ver := DEVICE_PROTO_VERSION; p_data := witness_payload 1 |}.
+Definition witness_p2 : pkt := {| p_rr := 2; p_call := 100; p_ver := DEVICE_PROTO_VERSION; p_data := witness_payload 2 |}.
+
+Theorem C02_old_code_refuted_thm :
+  (let '(s, tr) := run_trace true init witness_evs in
+     accepted tr = [witness_p1; witness_p2] /\ clean (outs_of tr) /\ ~ In OutBufOverflow (outs_of tr) /\
+     espbuf s = [] /\ odata (ob s) = [] /\ outq s = [] /\
+     wire_of (outs_of tr) = encode witness_p1) /\
+  (let '(s, tr) := run_trace false init witness_evs in
+     accepted tr = [witness_p1; witness_p2] /\ In Restart (outs_of tr) /\ In OutBufOverflow (outs_of tr)).
+Proof.
+  vm_compute. repeat split; try reflexivity.
+  - intros H. repeat (destruct H as [H|H]; [discriminate H|]). exact H.
+  - repeat (first [left; reflexivity | right]).
+  - repeat (first [left; reflexivity | right]).
 Qed.
